@@ -1,9 +1,59 @@
+import CoupeModel.Model.Basic
+import CoupeModel.Model.Greedy
+import CoupeModel.Model.Kk
 import CoupeModel.Driver.Util
 
 namespace Coupe.Driver.C12
 open Coupe.Driver
 
-/-- (stub; not built yet) -/
-def handle (_toks : List String) : String := "bad-op"
+/-- `<n> <w…> <m> <p…>` -/
+def parseArrays (rest : List String) : Option (List Int × List Nat) := do
+  match rest with
+  | n :: rest =>
+    let n ← parseNat? n
+    let (ws, rest) ← takeParsed parseInt? n rest
+    match rest with
+    | m :: rest =>
+      let m ← parseNat? m
+      let (p, rest) ← takeParsed parseNat? m rest
+      if rest.isEmpty then some (ws, p) else none
+    | [] => none
+  | [] => none
+
+/-- Insertion sort (ascending) for the canonical "sorted loads" line. -/
+def insAsc (v : Int) : List Int → List Int
+  | [] => [v]
+  | x :: xs => if v ≤ x then v :: x :: xs else x :: insAsc v xs
+
+def sortAsc (l : List Int) : List Int := l.foldr insAsc []
+
+/-- ops:
+* `greedy <i64|f64> <k> <n> <w…> <m> <p…>` → `ok <ids>` | `lenmismatch`
+  (the weight type only matters on the Rust side: `f64` runs use the same
+  integer values converted exactly)
+* `kk <k> <ids|loads> <n> <w…> <m> <p…>` → `ok ids <ids>` | `ok loads <sorted loads>`
+  | `lenmismatch` | `panic` -/
+def handle (toks : List String) : String :=
+  match toks with
+  | "greedy" :: ty :: k :: rest =>
+    if ty ≠ "i64" ∧ ty ≠ "f64" then "bad-op" else
+    match (do let k ← parseNat? k; let (ws, p) ← parseArrays rest; pure (k, ws, p)) with
+    | none => "bad-op"
+    | some (k, ws, p) =>
+      match Coupe.Greedy.run p ws k with
+      | .ok ids => "ok " ++ joinNats ids
+      | .lenMismatch => "lenmismatch"
+  | "kk" :: k :: cmp :: rest =>
+    if cmp ≠ "ids" ∧ cmp ≠ "loads" then "bad-op" else
+    match (do let k ← parseNat? k; let (ws, p) ← parseArrays rest; pure (k, ws, p)) with
+    | none => "bad-op"
+    | some (k, ws, p) =>
+      match Coupe.Kk.run p ws k with
+      | .ok ids =>
+        if cmp = "ids" then "ok ids " ++ joinNats ids
+        else "ok loads " ++ joinInts (sortAsc (Coupe.loads ws ids (max k 1)))
+      | .lenMismatch => "lenmismatch"
+      | .abort => "panic"
+  | _ => "bad-op"
 
 end Coupe.Driver.C12
